@@ -779,6 +779,18 @@ class Interp:
         l.elems = l.elems[:n]
         l.sym_n = None
 
+    def concrete_int(self, v, lo, hi):
+        """fork over the values lo..hi of a symbolic int (values outside are clamped to the ends,
+        which is what slicing does)"""
+        if not isinstance(v, SInt):
+            return v
+        for c in range(lo, hi):
+            if self.ctx.decide(v.term == c):
+                return c
+        if self.ctx.decide(v.term < lo):
+            return lo
+        return hi
+
     def list_copy(self, l, frozen):
         return PList(self, l.elems, l.sym_n, frozen)
 
@@ -1895,8 +1907,10 @@ class Interp:
             v = self.resolve(v)
             if v is None:
                 return "None"
-        if isinstance(v, (SInt, SBool)):
-            raise Unsupported("str() of a symbolic int/bool")
+        if isinstance(v, SInt):
+            return self.int_to_sstr(v)
+        if isinstance(v, SBool):
+            return self.wraps(z3.If(v.term, z3.StringVal("True"), z3.StringVal("False")))
         if isinstance(v, Obj):
             for nm in ("__str__", "__repr__"):
                 f = self.class_lookup(v.cls, nm)
@@ -1991,7 +2005,17 @@ class Interp:
         if isinstance(a, PList) and isinstance(b, PList) and isinstance(op, ast.Add):
             if a.sym_n is None and b.sym_n is None:
                 return PList(self, a.elems + b.elems, frozen=a.frozen)
-            raise Unsupported("list + symbolic")
+            if a.frozen != b.frozen:
+                self.raise_("TypeError", "can only concatenate list to list / tuple to tuple")
+            if b.sym_n is not None:
+                b = self.list_copy(b, b.frozen)
+                self.concretize_len(b)
+            if a.sym_n is None:
+                return PList(self, a.elems + b.elems, frozen=a.frozen)
+            r = PList(self, list(a.elems) + [None] * len(b.elems), sym_n=a.sym_n, frozen=a.frozen)
+            for x in b.elems:
+                self.list_append(r, x)
+            return r
         if isinstance(a, PSet) and isinstance(op, ast.BitOr):
             s = PSet(self, a.elems)
             for x in list(self.iterate(b)):
@@ -2080,7 +2104,17 @@ class Interp:
                     return c[lo:hi:st]
                 raise Unsupported("slice with step")
             if isinstance(lo, SInt) or isinstance(hi, SInt):
-                raise Unsupported("symbolic slice bound")
+                # concretise the bound (forks over the possible positions)
+                c = self.resolve(c)
+                if not isinstance(c, PList):
+                    raise Unsupported("symbolic slice bound on non-list")
+                if c.sym_n is not None:
+                    c = self.list_copy(c, c.frozen)
+                    self.concretize_len(c)
+                n = len(c.elems)
+                lo = self.concrete_int(lo, -n, n) if isinstance(lo, SInt) else lo
+                hi = self.concrete_int(hi, -n, n) if isinstance(hi, SInt) else hi
+                return PList(self, c.elems[lo:hi], frozen=c.frozen)
             if isinstance(c, str):
                 return c[lo:hi]
             if isinstance(c, SStr):
